@@ -567,8 +567,18 @@ type c29QueueCase struct {
 
 func c29QueueGen(t *rapid.T) c29QueueCase {
 	act := rapid.Custom(func(t *rapid.T) c29QAct {
-		op := rapid.SampledFrom([]string{"put", "put", "put", "put", "get", "get", "get", "get", "get", "cancel", "cancel"}).Draw(t, "op")
-		if rapid.IntRange(0, 59).Draw(t, "close") == 0 {
+		// rapid's small-int draws are strongly biased to 0; two bytes modulo 100 are
+		// close to uniform.
+		pct := (int(rapid.Byte().Draw(t, "p1"))<<8 | int(rapid.Byte().Draw(t, "p2"))) % 100
+		var op string
+		switch {
+		case pct < 36:
+			op = "put"
+		case pct < 82:
+			op = "get"
+		case pct < 98:
+			op = "cancel"
+		default:
 			op = "close"
 		}
 		return c29QAct{W: rapid.IntRange(0, 4).Draw(t, "w"), Op: op}
